@@ -79,9 +79,23 @@ def rpm_op(draw, families, allow_breaks=True):
           "category": kind, "srpm": srpm_arg, "break": None}
     if allow_breaks and draw(st.integers(0, 3)) == 0:
         brk = draw(st.sampled_from(["arch", "category", "abs-path", "empty-path", "no-epoch", "unparsable", "srpm-missing", "srpm-for-source",
-                                    "srpm-unparsable", "srpm-unparsable", "srpm-no-epoch", "category-arch"]))
+                                    "srpm-unparsable", "srpm-unparsable", "srpm-no-epoch", "category-arch", "wrong-type"]))
         op["break"] = brk
-        if brk == "arch":
+        if brk == "wrong-type":
+            # a value of another type for one of the textual parameters
+            which = draw(st.sampled_from(["path", "sigkey", "nevra", "srpm"]))
+            odd = draw(st.sampled_from([5, 1.5, ["a"], {"a": 1}, True]))
+            if which == "path":
+                op["path"] = odd
+            elif which == "sigkey":
+                op["sigkey"] = odd
+            elif which == "nevra":
+                op["nevra"] = {"invalid": draw(st.sampled_from([None, 5, ["glibc-0:1-1.x86_64"]]))}
+            elif kind == "source":
+                op["path"] = odd
+            else:
+                op["srpm"] = {"invalid": draw(st.sampled_from([5, ["glibc-0:1-1.src"]]))}
+        elif brk == "arch":
             op["arch"] = draw(gen.bad_arch)
         elif brk == "category":
             op["category"] = draw(st.sampled_from(["package", "Binary", "", None, "src", "debuginfo"]))
@@ -134,7 +148,9 @@ def rpm_model_apply(model, op):
         return False
     if op["category"] not in CATEGORIES:
         return False
-    if not op["path"] or op["path"].startswith("/"):
+    if not isinstance(op["path"], str) or not op["path"] or op["path"].startswith("/"):
+        return False
+    if op["sigkey"] is not None and not isinstance(op["sigkey"], str):
         return False
     nevra = op["nevra"]
     if "invalid" in nevra or nevra["epoch"] is None:
@@ -203,7 +219,7 @@ def module_op(draw, uid_pool, list_ids, allow_breaks=True):
         elif brk == "abs-path":
             op["path"] = "/" + op["path"]
         elif brk == "empty-path":
-            op["path"] = ""
+            op["path"] = draw(st.sampled_from(["", "", None, 5, ["p"]]))
         elif brk == "koji-tag":
             op["koji_tag"] = draw(st.sampled_from(["", None]))
         elif brk == "rpms-type":
@@ -237,7 +253,7 @@ def module_model_apply(model, op, lists):
     parts = op["uid_parts"]
     if parts is None or not (2 <= len(parts) <= 4) or any(not p or ":" in p for p in parts):
         return False
-    if op["path"].startswith("/") or not op["path"] or not op["koji_tag"]:
+    if not isinstance(op["path"], str) or op["path"].startswith("/") or not op["path"] or not op["koji_tag"]:
         return False
     if "other" in op["rpms"]:
         return False
@@ -290,7 +306,7 @@ def extra_op(draw, allow_breaks=True):
         elif brk == "arch":
             op["arch"] = draw(st.sampled_from(["", "X86_64", "foo", "x86-64"]))
         elif brk == "empty-path":
-            op["path"] = ""
+            op["path"] = draw(st.sampled_from(["", "", None, 5, ["GPL"]]))
         elif brk == "abs-path":
             op["path"] = "/" + op["path"]
         elif brk == "checksums-type":
@@ -303,7 +319,7 @@ def extra_history(allow_breaks=True, max_ops=15):
 
 
 def extra_model_apply(model, op):
-    if not op["variant"] or op["arch"] not in gen.RPM_ARCHES or not op["path"] or op["path"].startswith("/"):
+    if not op["variant"] or op["arch"] not in gen.RPM_ARCHES or not isinstance(op["path"], str) or not op["path"] or op["path"].startswith("/"):
         return False
     if not isinstance(op["checksums"], dict):
         return False
